@@ -23,6 +23,7 @@ type Workload struct {
 	govProposed int
 	busy        map[int]bool
 	movedStake  map[string]bool // delegators that sent an undelegate / redelegate
+	extra       []*Intent       // further intents an op wants delivered in the same block (a burst by several actors)
 }
 
 func newWorkload(g *Gen) *Workload {
@@ -143,6 +144,15 @@ func (w *Workload) intentsFor(h int64, p *HeightPlan) []Delivery {
 		w.busy[in.Actor] = true
 		w.decorate(in)
 		out = append(out, w.deliveryFor(in, p))
+		for _, x := range w.extra {
+			if w.busy[x.Actor] || !w.usable(x.Actor) {
+				continue
+			}
+			w.busy[x.Actor] = true
+			w.decorate(x)
+			out = append(out, w.deliveryFor(x, p))
+		}
+		w.extra = nil
 	}
 	return out
 }
